@@ -9,13 +9,14 @@ from pptx.oxml.table import CT_Table  # noqa: E402
 from pptx.table import _Cell  # noqa: E402
 from pptx.text.text import TextFrame, _Paragraph, _Run  # noqa: E402
 
-ALPH = "\n\x0b\t\x07\x00\r a_<&"
+ALPH = "\n\x0b\t\x07 a<" if THOROUGH else "\n\x0b\t\x07\x00\r a_<&"
 MAXLEN = 4 if THOROUGH else 3
 ENC = ["pptx.text.text:TextFrame.text", "pptx.text.text:_Paragraph.text", "pptx.text.text:_Paragraph.clear", "pptx.text.text:_Run.text",
        "pptx.table:_Cell.text", "pptx.oxml.text:CT_TextParagraph.append_text", "pptx.oxml.text:CT_TextParagraph.content_children",
        "pptx.oxml.text:CT_RegularTextRun._escape_ctrl_chars", "pptx.oxml.text:CT_RegularTextRun.text", "pptx.oxml.text:CT_TextBody.clear_content"]
-BOUND = ("every string s with len(s) <= MAXLEN (3 quick / 4 thorough) over the alphabet {LF, VT, TAB, BEL, NUL, CR, space, 'a', "
-         "'_', '<', '&'} (one representative per class the code distinguishes); prior body state: symbolic index into 3 states")
+BOUND = ("quick: every string s with len(s) <= 3 over the alphabet {LF, VT, TAB, BEL, NUL, CR, space, 'a', '_', '<', '&'} (one "
+         "representative per class the code distinguishes); thorough: len(s) <= 4 over {LF, VT, TAB, BEL, space, 'a', '<'}; prior body "
+         "state: symbolic index into 3 states")
 A = nsdecls("a")
 PRIOR_P = [
     "<a:p %s/>" % A,
@@ -70,7 +71,7 @@ def _p_shape_ok(p, segs):
     return kids == want
 
 
-@cond(timeout=300, encodes=ENC, bound=BOUND)
+@cond(timeout=3000 if THOROUGH else 300, encodes=ENC, bound=BOUND)
 def run_level(s: str, had_rPr: bool) -> bool:
     """
     pre: len(s) <= MAXLEN and all(c in ALPH for c in s)
@@ -83,7 +84,7 @@ def run_level(s: str, had_rPr: bool) -> bool:
     return run.text == _esc(s) and r.rPr is rPr and len(r) == (2 if had_rPr else 1) and (r.t.text or "") == _esc(s)
 
 
-@cond(timeout=900, encodes=ENC, bound=BOUND)
+@cond(timeout=3000 if THOROUGH else 900, encodes=ENC, bound=BOUND)
 def paragraph_level(s: str, prior: int) -> bool:
     """
     pre: len(s) <= MAXLEN and all(c in ALPH for c in s)
@@ -112,7 +113,7 @@ def paragraph_twin(s: str) -> bool:
     return para.text != "_x0007_\x0b" + "a"
 
 
-@cond(timeout=900, encodes=ENC, bound=BOUND)
+@cond(timeout=3000 if THOROUGH else 900, encodes=ENC, bound=BOUND)
 def frame_level(s: str, prior: int) -> bool:
     """
     pre: len(s) <= MAXLEN and all(c in ALPH for c in s)
@@ -146,7 +147,7 @@ def frame_twin(s: str) -> bool:
 _CELL_TBL = CT_Table.new_tbl(1, 1, 100, 100)
 
 
-@cond(timeout=900, encodes=ENC, bound=BOUND + " (cell of a fresh 1x1 table, optionally holding earlier text)")
+@cond(timeout=3000 if THOROUGH else 900, encodes=ENC, bound=BOUND + " (cell of a fresh 1x1 table, optionally holding earlier text)")
 def cell_level(s: str, had_text: bool) -> bool:
     """
     pre: len(s) <= MAXLEN and all(c in ALPH for c in s)
